@@ -22,6 +22,41 @@ func (c *Ctx) reconciler(r *Roles) *ssa.Function {
 	return nil
 }
 
+// reconcilerRegion: the reconciler and the helpers of its package it hands the pending lists
+// (or elements of them) to.
+func (c *Ctx) reconcilerRegion(r *Roles) []*ssa.Function {
+	fn := c.reconciler(r)
+	if fn == nil {
+		return nil
+	}
+	out := []*ssa.Function{fn}
+	seen := map[*ssa.Function]bool{fn: true}
+	takesPending := func(g *ssa.Function) bool {
+		for _, p := range g.Params {
+			t := p.Type()
+			if pt, ok := t.Underlying().(*types.Pointer); ok {
+				t = pt.Elem()
+			}
+			en := elemTypeName(t)
+			if en == "Sender" || en == "Receiver" || typeShort(t) == "Sender" || typeShort(t) == "Receiver" {
+				return true
+			}
+		}
+		return false
+	}
+	for i := 0; i < len(out) && len(out) < 8; i++ {
+		for _, ci := range core.Calls(out[i]) {
+			sc := ci.Common().StaticCallee()
+			if sc == nil || seen[sc] || len(sc.Blocks) == 0 || relOfFn(sc) != relOfFn(fn) || !takesPending(sc) {
+				continue
+			}
+			seen[sc] = true
+			out = append(out, sc)
+		}
+	}
+	return out
+}
+
 // amountKind: v is (a load of) a sender's or a receiver's queued amount: "S", "R" or "".
 func amountKind(v ssa.Value, r *Roles) string {
 	v = core.Strip(v)
@@ -50,73 +85,75 @@ func (c *Ctx) PushBackDiscipline(ob *core.Obligation, r *Roles) {
 	if r == nil {
 		return
 	}
-	fn := c.reconciler(r)
-	if fn == nil {
+	region := c.reconcilerRegion(r)
+	if len(region) == 0 {
 		ob.Unknown("anchor:reconciler", "-", "no function building postings found")
 		return
 	}
-	c.Touch(fn)
 	n := 0
-	for _, b := range fn.Blocks {
-		for _, in := range b.Instrs {
-			st, ok := in.(*ssa.Store)
-			if !ok {
-				continue
-			}
-			f := core.FieldOf(st.Addr)
-			if f != r.SenderAmt && f != r.ReceiverAmt {
-				continue
-			}
-			n++
-			own, other := "S", "R"
-			name := "sender"
-			if f == r.ReceiverAmt {
-				own, other, name = "R", "S", "receiver"
-			}
-			key := "pushback:" + core.SSAName(fn) + ":" + name
-			w := subWriter(st.Val)
-			if w == nil {
-				ob.Fail(key, c.P.Pos(st.Pos()), "a "+name+" is pushed back whose amount is not a fresh difference of the two amounts popped (a popped element goes back unchanged: the share already consumed is counted again)")
-				continue
-			}
-			a := core.CallArgs(&w.Call)
-			if amountKind(a[1], r) != own || amountKind(a[2], r) != other {
-				ob.Fail(key, c.P.Pos(st.Pos()), "the remainder pushed back as a "+name+" is not (that "+name+"'s amount) - (the other side's amount): the rest of one side would be billed to the other")
-				continue
-			}
-			ob.Pass(key, c.P.Pos(st.Pos()), "pushed-back "+name+" = its own amount minus the other side's")
-		}
-	}
-	// a whole popped struct appended back (no field store at all)
-	for _, b := range fn.Blocks {
-		for _, in := range b.Instrs {
-			call, ok := in.(*ssa.Call)
-			if !ok {
-				continue
-			}
-			bi, ok := call.Call.Value.(*ssa.Builtin)
-			if !ok || bi.Name() != "append" || len(call.Call.Args) != 2 {
-				continue
-			}
-			en := elemTypeName(call.Call.Args[0].Type())
-			if en != "Sender" && en != "Receiver" {
-				continue
-			}
-			var elems []ssa.Value
-			if sl, ok := call.Call.Args[1].(*ssa.Slice); ok {
-				walk2(sl, &elems)
-			}
-			for _, e := range elems {
-				ld, ok := e.(*ssa.UnOp)
+	for _, fn := range region {
+		c.Touch(fn)
+		for _, b := range fn.Blocks {
+			for _, in := range b.Instrs {
+				st, ok := in.(*ssa.Store)
 				if !ok {
 					continue
 				}
-				al, ok := ld.X.(*ssa.Alloc)
-				if ok && al.Comment == "complit" {
-					continue // a fresh literal: its fields were judged above
+				f := core.FieldOf(st.Addr)
+				if f != r.SenderAmt && f != r.ReceiverAmt {
+					continue
 				}
 				n++
-				ob.Fail("pushback:"+core.SSAName(fn)+":"+strings.ToLower(en)+":whole", c.P.Pos(call.Pos()), "a popped "+strings.ToLower(en)+" is pushed back unchanged: the part already consumed is counted again")
+				own, other := "S", "R"
+				name := "sender"
+				if f == r.ReceiverAmt {
+					own, other, name = "R", "S", "receiver"
+				}
+				key := "pushback:" + core.SSAName(fn) + ":" + name
+				w := subWriter(st.Val)
+				if w == nil {
+					ob.Fail(key, c.P.Pos(st.Pos()), "a "+name+" is pushed back whose amount is not a fresh difference of the two amounts popped (a popped element goes back unchanged: the share already consumed is counted again)")
+					continue
+				}
+				a := core.CallArgs(&w.Call)
+				if amountKind(a[1], r) != own || amountKind(a[2], r) != other {
+					ob.Fail(key, c.P.Pos(st.Pos()), "the remainder pushed back as a "+name+" is not (that "+name+"'s amount) - (the other side's amount): the rest of one side would be billed to the other")
+					continue
+				}
+				ob.Pass(key, c.P.Pos(st.Pos()), "pushed-back "+name+" = its own amount minus the other side's")
+			}
+		}
+		// a whole popped struct appended back (no field store at all)
+		for _, b := range fn.Blocks {
+			for _, in := range b.Instrs {
+				call, ok := in.(*ssa.Call)
+				if !ok {
+					continue
+				}
+				bi, ok := call.Call.Value.(*ssa.Builtin)
+				if !ok || bi.Name() != "append" || len(call.Call.Args) != 2 {
+					continue
+				}
+				en := elemTypeName(call.Call.Args[0].Type())
+				if en != "Sender" && en != "Receiver" {
+					continue
+				}
+				var elems []ssa.Value
+				if sl, ok := call.Call.Args[1].(*ssa.Slice); ok {
+					walk2(sl, &elems)
+				}
+				for _, e := range elems {
+					ld, ok := e.(*ssa.UnOp)
+					if !ok {
+						continue
+					}
+					al, ok := ld.X.(*ssa.Alloc)
+					if ok && al.Comment == "complit" {
+						continue // a fresh literal: its fields were judged above
+					}
+					n++
+					ob.Fail("pushback:"+core.SSAName(fn)+":"+strings.ToLower(en)+":whole", c.P.Pos(call.Pos()), "a popped "+strings.ToLower(en)+" is pushed back unchanged: the part already consumed is counted again")
+				}
 			}
 		}
 	}
